@@ -290,6 +290,23 @@ def check(ctx):
                 continue
             for cores in [1, rng.choice(multi)] if ctx.quick else [1] + multi[:2]:
                 add("single", ("gz:" if gz else "") + label, {name: bad}, refs[refkey]["argv"], cores, rng.choice([600, 600, 1000, None]), refkey, wf)
+    # ---- a larger gzip input: the decompressor fails only after format detection and the first chunks went through, so the error
+    # arises in the reader process and has to travel through the workers to the main process (EOFError for a truncated stream)
+    big = make_records(rng, 400 if ctx.quick else 2500, "b")
+    bigdata = gzip.compress(fastq(big), mtime=0)
+    refs["single-gz-big"] = {"files": {"in.fastq.gz": bigdata}, "argv": lambda d: argv_single(d, "in.fastq.gz")}
+    nb = len(bigdata)
+    bigfaults = [("truncate@%d" % p, bigdata[:p]) for p in sorted(set([nb // 3, (nb * 3) // 5, nb - 9, nb - 300] + [rng.randrange(nb // 10, nb) for _ in range(1 if ctx.quick else 8)]))]
+    for _ in range(1 if ctx.quick else 6):
+        p = rng.randrange(nb // 4, nb - 8)
+        bigfaults.append(("flip@%d" % p, bigdata[:p] + bytes([bigdata[p] ^ 0x55]) + bigdata[p + 1:]))
+    for label, bad in bigfaults:
+        parsed = well_formed_file("in.fastq.gz", bad)
+        if parsed is not None:
+            dist["well-formed-but-different (skipped)"] = dist.get("well-formed-but-different (skipped)", 0) + 1
+            continue
+        for cores in [1, rng.choice(multi)] if ctx.quick else [1] + multi[:2]:
+            add("single", "gz-big:" + label, {"in.fastq.gz": bad}, refs["single-gz-big"]["argv"], cores, rng.choice([600, 1000, None]), "single-gz-big", None)
     # ---- paired, two files and interleaved
     r1 = make_records(rng, nrec)
     r2 = [(a[0], b[1], b[2]) for a, b in zip(r1, make_records(rng, nrec))]
